@@ -2849,6 +2849,18 @@ impl<'a> Checker<'a>
                 if persist { self.sys.counts.insert(state, n); }
             }
             self.apply_issued_ctx(issued, true)?;
+            // ... and so is every other deferred buffer it has (`ParallelCommands`, a custom `Deferred<T>`), in parameter order
+            if !callee_dw
+            {
+                for which in 0..2u8
+                {
+                    match self.peek()?.cloned()
+                    {
+                        Some(Ev::SysPar { key: k2, n: n2, which: w2 }) if k2 == fkey && n2 == n && w2 == which => self.advance()?,
+                        other => fail!(self, "C17", "syscall-effects-late", &["C09", "C02"], "call through {kind:?} key {key}: the callee's {} was not applied before the call returned; observed {other:?}", if which == 0 { "`ParallelCommands` buffer" } else { "custom `Deferred<T>` buffer" }),
+                    }
+                }
+            }
             self.sender = saved;
             if !callee_dw
             {
